@@ -144,6 +144,7 @@ def errStr : LoadErr → String
   | .badEnum => "bad_enum" | .badLabelKey => "bad_label_key" | .emptyName => "empty_name" | .badName => "bad_name"
   | .badMatch => "bad_match" | .badRegex => "bad_regex" | .quantilesBoth => "quantiles_both" | .bucketsBoth => "buckets_both"
   | .histWithSummaryOpts => "hist_with_summary_opts" | .summaryWithHistOpts => "summary_with_hist_opts"
+  | .badBuckets => "bad_buckets" | .badSummaryOpts => "bad_summary_opts"
 
 def splitOnTok (sep : String) : List String → List (List String)
   | [] => [[]]
